@@ -173,3 +173,37 @@ func VerifC17Neg() {
 	h.ServeHTTP(verifNewRecorder(), verifRequest())
 	verifrt.Assert(len(verifTrace) > 0 && verifTrace[0] == 1, "NEGATIVE TWIN: last listed plugin runs first")
 }
+
+// VerifC20PluginHijack: with any stack of <= 3 wrapping plugins (logging,
+// size_limit, gzip) Hijack() reaches the connection exactly once.
+func VerifC20PluginHijack(k int) {
+	var pc config.PluginsConfig
+	pc.Enabled = true
+	wrappers := []config.PluginConfig{
+		{Name: "logging"},
+		{Name: "size_limit", Config: map[string]interface{}{"max_request_body": 1024}},
+		{Name: "gzip", Config: map[string]interface{}{"level": float64(5), "min_size": float64(0), "content_types": []interface{}{"text/html"}}},
+	}
+	for p := 0; p < k; p++ {
+		pc.Chain = append(pc.Chain, wrappers[verifrt.Choice("wrapper", 3)])
+	}
+	var hijackErr error
+	called := false
+	base := http.HandlerFunc(func(w http.ResponseWriter, r *http.Request) {
+		called = true
+		h, ok := w.(http.Hijacker)
+		if !ok {
+			hijackErr = http.ErrNotSupported
+			return
+		}
+		_, _, hijackErr = h.Hijack()
+	})
+	h, err := BuildChain(pc, base)
+	verifrt.Assert(err == nil, "the wrapper chain builds")
+	rec := verifNewRecorder()
+	r := verifRequest()
+	r.Header.Set("Accept-Encoding", "gzip")
+	r.Header.Set("Upgrade", "websocket")
+	h.ServeHTTP(rec, r)
+	verifrt.Assert(called && hijackErr == nil && rec.hijacks == 1, "Hijack through every plugin wrapper reaches the connection exactly once")
+}
